@@ -150,6 +150,9 @@ def correspondence(rep, ctx):
             if abs(F(a[k]) - F(b[k])) > Fraction(5, 10**14) * max(F(a[k]), F(b[k])):
                 fail(desc, f"Inventory gives {k}: {a[k]!r}, InventoryHP gives {b[k]!r}")
                 break
+    # fractions of an inventory used, changed in place and used again == those of a fresh inventory with the same amounts
+    from decaylib import mutated_object_block
+    bad += mutated_object_block(rep, ctx, "c14/mutated-object", hp_too=True, nseq=(24 if thorough else 6))
     # scale / unit invariance and definition of the fractions on synthetic datasets (own half-lives and masses)
     import synthetic
     for k_ in range(6 if thorough else 2):
